@@ -2,6 +2,13 @@
     Models: Cassette/Stores.v (in-memory, file-based), Cassette/S3Store.v + Bucket.v (S3),
     Values/Codec.v (jsonpickle flatten/restore, json.dumps).  Oracles with their premises:
     [qp]/[qp_dec] quoted-printable for bytes values, [loads] json.loads, [compress]/[decompress] zlib.
+    The premise about [loads] is asked on the well-formed JSON trees [jwf] only (strings without lone
+    surrogates, float nodes carrying a float text): over ALL [json] terms no function inverts [dumps]
+    (C07_unrestricted_loads_premise_refuted), whereas the concrete parser of the correspondence runs
+    satisfies the restricted premise (C07_loads_inverts_dumps), as do the concrete quoted-printable
+    codec and identity zlib theirs: the *_concrete theorems have no oracle premise left.
+    [rec_leaves_ok r]: every float in data / metadata carries a float.__repr__ text (JsonWf.float_repr_ok)
+    and every bytes value is a list of bytes; with [rec_wf] this puts the flattened recording in [jwf].
     [rec_wf r]: the id is a well-formed str and data / metadata are dicts in the serializer's
     faithful domain [wf] (any key text except jsonpickle's reserved py/... tags; tuples, bytes,
     nested containers, objects with at least one attribute, class references, ints, floats).
@@ -9,8 +16,8 @@
     only sorts dict items (Python's == on dicts ignores insertion order; see C07_fetched_meaning).
     Values are trees: shared sub-objects are outside [pyval] and are covered by the direct
     predicate of the check only (known finding F07c). *)
-From Playback Require Import Base.Str Values.PyVal Values.SortFacts Values.Codec Values.JsonParse
-  Cassette.Bucket Cassette.S3Store Cassette.S3StoreFacts Cassette.Stores Cassette.StoresFacts.
+From Playback Require Import Base.Str Values.PyVal Values.SortFacts Values.Codec Values.JsonWf Values.JsonParse
+  Values.JsonFacts Cassette.Bucket Cassette.S3Store Cassette.S3StoreFacts Cassette.Stores Cassette.StoresFacts.
 From Coq Require Import Permutation.
 Open Scope list_scope.
 
@@ -19,9 +26,10 @@ Open Scope list_scope.
     and then any recordings with other ids, fetching r's id gives r back; the metadata-only fetch
     agrees with the metadata of the full fetch. *)
 Theorem C07_roundtrip_mem :
-  forall qp qp_dec loads, (forall b, qp_dec (qp b) = b) -> (forall j, loads (dumps j) = Some j) ->
+  forall qp qp_dec loads, (forall b, qp_dec (qp b) = b) ->
+    (forall j, jwf j = true -> loads (dumps j) = Some j) -> (forall b, is_bytes b = true -> str_ok (qp b) = true) ->
   forall r s rs,
-    rec_wf r = true -> Forall (fun r' => r_id r' <> r_id r) rs ->
+    rec_wf r = true -> rec_leaves_ok r = true -> Forall (fun r' => r_id r' <> r_id r) rs ->
     snd (mem_save qp r s) = Ans tt /\
     mem_get qp_dec loads (r_id r) (mem_saves qp rs (fst (mem_save qp r s))) = Ans (fetched_of r) /\
     mem_get_meta qp_dec loads (r_id r) (mem_saves qp rs (fst (mem_save qp r s))) = Ans (f_meta (fetched_of r)).
@@ -31,9 +39,10 @@ Print Assumptions C07_roundtrip_mem.
 (** File based: the same, for later saves whose file name differs from r's (guaranteed for ids made
     by create_new_recording, C07_path_injective; false for some hand-made ids, C07_path_collision_refuted). *)
 Theorem C07_roundtrip_file :
-  forall qp qp_dec loads, (forall b, qp_dec (qp b) = b) -> (forall j, loads (dumps j) = Some j) ->
+  forall qp qp_dec loads, (forall b, qp_dec (qp b) = b) ->
+    (forall j, jwf j = true -> loads (dumps j) = Some j) -> (forall b, is_bytes b = true -> str_ok (qp b) = true) ->
   forall r d rs,
-    rec_wf r = true -> Forall (fun r' => fpath (r_id r') <> fpath (r_id r)) rs ->
+    rec_wf r = true -> rec_leaves_ok r = true -> Forall (fun r' => fpath (r_id r') <> fpath (r_id r)) rs ->
     snd (file_save qp r d) = Ans tt /\
     file_get qp_dec loads (r_id r) (file_saves qp rs (fst (file_save qp r d))) = Ans (fetched_of r) /\
     file_get_meta qp_dec loads (r_id r) (file_saves qp rs (fst (file_save qp r d))) = Ans (f_meta (fetched_of r)).
@@ -44,9 +53,10 @@ Print Assumptions C07_roundtrip_file.
     data key "_metadata" (see C07_s3_reserved_key_refuted) that the sampling policy keeps. *)
 Theorem C07_roundtrip_s3 :
   forall qp qp_dec loads compress decompress,
-    (forall b, qp_dec (qp b) = b) -> (forall j, loads (dumps j) = Some j) -> (forall b, decompress (compress b) = Some b) ->
+    (forall b, qp_dec (qp b) = b) ->
+    (forall j, jwf j = true -> loads (dumps j) = Some j) -> (forall b, is_bytes b = true -> str_ok (qp b) = true) -> (forall b, decompress (compress b) = Some b) ->
   forall c r s st rs,
-    rec_wf r = true -> assoc META (r_data r) = None -> c_read_only c = false ->
+    rec_wf r = true -> rec_leaves_ok r = true -> assoc META (r_data r) = None -> c_read_only c = false ->
     (should_sample s = true /\ match s with NoCalc => True | Calc _ _ => id_category (r_id r) <> None end) ->
     Forall (fun rs' => r_id (fst rs') <> r_id r) rs ->
     snd (s3_save qp compress c r s st) = Ans tt /\
@@ -77,9 +87,10 @@ Print Assumptions C07_path_injective.
 (** Hand-made ids "a/b_c" and "a_b/c" share the file a_b_c.json: after saving both, fetching the
     first id hands back the second recording (observation: outside the created-id domain). *)
 Theorem C07_path_collision_refuted :
-  forall qp qp_dec loads, (forall b, qp_dec (qp b) = b) -> (forall j, loads (dumps j) = Some j) ->
+  forall qp qp_dec loads, (forall b, qp_dec (qp b) = b) ->
+    (forall j, jwf j = true -> loads (dumps j) = Some j) -> (forall b, is_bytes b = true -> str_ok (qp b) = true) ->
     r_id collide_a <> r_id collide_b /\ fpath (r_id collide_a) = fpath (r_id collide_b) /\
-    rec_wf collide_a = true /\ rec_wf collide_b = true /\
+    rec_wf collide_a = true /\ rec_wf collide_b = true /\ rec_leaves_ok collide_b = true /\
     forall d, file_get qp_dec loads (r_id collide_a) (fst (file_save qp collide_b (fst (file_save qp collide_a d))))
               = Ans (fetched_of collide_b) /\
               fetched_of collide_b <> fetched_of collide_a.
@@ -118,9 +129,10 @@ Print Assumptions C07_unknown_id_signals_s3.
     "_metadata" entry ... *)
 Theorem C07_roundtrip_s3_general :
   forall qp qp_dec loads compress decompress,
-    (forall b, qp_dec (qp b) = b) -> (forall j, loads (dumps j) = Some j) -> (forall b, decompress (compress b) = Some b) ->
+    (forall b, qp_dec (qp b) = b) ->
+    (forall j, jwf j = true -> loads (dumps j) = Some j) -> (forall b, is_bytes b = true -> str_ok (qp b) = true) -> (forall b, decompress (compress b) = Some b) ->
   forall c r s st rs,
-    rec_wf r = true -> c_read_only c = false ->
+    rec_wf r = true -> rec_leaves_ok r = true -> c_read_only c = false ->
     (should_sample s = true /\ match s with NoCalc => True | Calc _ _ => id_category (r_id r) <> None end) ->
     Forall (fun rs' => r_id (fst rs') <> r_id r) rs ->
     snd (s3_save qp compress c r s st) = Ans tt /\
@@ -135,20 +147,72 @@ Print Assumptions C07_roundtrip_s3_general.
     data {"_metadata": 1, "k": 2}, metadata {"m": 3}; fetched data is {"k": 2}). *)
 Theorem C07_s3_reserved_key_refuted :
   forall qp qp_dec loads compress decompress,
-    (forall b, qp_dec (qp b) = b) -> (forall j, loads (dumps j) = Some j) -> (forall b, decompress (compress b) = Some b) ->
+    (forall b, qp_dec (qp b) = b) ->
+    (forall j, jwf j = true -> loads (dumps j) = Some j) -> (forall b, is_bytes b = true -> str_ok (qp b) = true) -> (forall b, decompress (compress b) = Some b) ->
   forall c st, c_read_only c = false ->
-    rec_wf reserved_witness = true /\
+    rec_wf reserved_witness = true /\ rec_leaves_ok reserved_witness = true /\
     exists f, s3_get qp_dec loads decompress c (r_id reserved_witness)
                 (objs (fst (s3_save qp compress c reserved_witness NoCalc st))) = Ans f /\
               f_data f = VDict [(U"k", VInt 2)] /\ f_data f <> f_data (fetched_of reserved_witness).
 Proof. exact s3_reserved_key_lost. Qed.
 Print Assumptions C07_s3_reserved_key_refuted.
 
+(** The oracle premises, discharged for the concrete oracles of the correspondence runs
+    (Values/JsonParse.v: [loads], [qp_dec_simple]; Values/Codec.v: [qp_simple]; identity zlib). *)
+Theorem C07_loads_inverts_dumps :
+  forall j, jwf j = true -> loads (dumps j) = Some j.
+Proof. exact loads_dumps. Qed.
+Print Assumptions C07_loads_inverts_dumps.
+
+(** ... and why the premise is restricted to [jwf]: unrestricted, it is satisfied by no function. *)
+Theorem C07_unrestricted_loads_premise_refuted :
+  forall lds : str -> option json, ~ (forall j, lds (dumps j) = Some j).
+Proof. exact loads_dumps_unsatisfiable. Qed.
+Print Assumptions C07_unrestricted_loads_premise_refuted.
+
+Theorem C07_roundtrip_mem_concrete :
+  forall r s rs,
+    rec_wf r = true -> rec_leaves_ok r = true -> Forall (fun r' => r_id r' <> r_id r) rs ->
+    snd (mem_save qp_simple r s) = Ans tt /\
+    mem_get qp_dec_simple loads (r_id r) (mem_saves qp_simple rs (fst (mem_save qp_simple r s))) = Ans (fetched_of r) /\
+    mem_get_meta qp_dec_simple loads (r_id r) (mem_saves qp_simple rs (fst (mem_save qp_simple r s)))
+      = Ans (f_meta (fetched_of r)).
+Proof. exact (roundtrip_mem qp_simple qp_dec_simple loads qp_simple_roundtrip loads_dumps qp_simple_ok). Qed.
+Print Assumptions C07_roundtrip_mem_concrete.
+
+Theorem C07_roundtrip_file_concrete :
+  forall r d rs,
+    rec_wf r = true -> rec_leaves_ok r = true -> Forall (fun r' => fpath (r_id r') <> fpath (r_id r)) rs ->
+    snd (file_save qp_simple r d) = Ans tt /\
+    file_get qp_dec_simple loads (r_id r) (file_saves qp_simple rs (fst (file_save qp_simple r d))) = Ans (fetched_of r) /\
+    file_get_meta qp_dec_simple loads (r_id r) (file_saves qp_simple rs (fst (file_save qp_simple r d)))
+      = Ans (f_meta (fetched_of r)).
+Proof. exact (roundtrip_file qp_simple qp_dec_simple loads qp_simple_roundtrip loads_dumps qp_simple_ok). Qed.
+Print Assumptions C07_roundtrip_file_concrete.
+
+Theorem C07_roundtrip_s3_concrete :
+  forall c r s st rs,
+    rec_wf r = true -> rec_leaves_ok r = true -> assoc META (r_data r) = None -> c_read_only c = false ->
+    (should_sample s = true /\ match s with NoCalc => True | Calc _ _ => id_category (r_id r) <> None end) ->
+    Forall (fun rs' => r_id (fst rs') <> r_id r) rs ->
+    snd (s3_save qp_simple (fun b => b) c r s st) = Ans tt /\
+    s3_get qp_dec_simple loads (fun b => Some b) c (r_id r)
+      (objs (s3_saves qp_simple (fun b => b) c rs (fst (s3_save qp_simple (fun b => b) c r s st)))) = Ans (fetched_of r) /\
+    s3_get_meta qp_dec_simple loads c (r_id r)
+      (objs (s3_saves qp_simple (fun b => b) c rs (fst (s3_save qp_simple (fun b => b) c r s st))))
+      = Ans (f_meta (fetched_of r)).
+Proof.
+  exact (roundtrip_s3 qp_simple qp_dec_simple loads (fun b => b) (fun b => Some b)
+           qp_simple_roundtrip loads_dumps qp_simple_ok (fun b => eq_refl)).
+Qed.
+Print Assumptions C07_roundtrip_s3_concrete.
+
 (** ------------------------------------------------------------------------------------------ *)
 (** Non-vacuity: a recording with awkward key texts and nested values meets [rec_wf]; with the
     concrete parser and identity zlib the three models hand it back after later saves of another
-    id (evaluation, not a proof of the premises about the oracles, which are about json / zlib /
-    quopri and are exercised by the correspondence run on every generated case). *)
+    id; and the concrete oracles meet every oracle premise of the theorems above (so those premises
+    are satisfiable together; for the real json / zlib / quopri they are exercised by the
+    correspondence run on every generated case). *)
 Definition ex_r : recording :=
   Rec (U"Op/0123456789abcdef") false
       [([34; 113; 34]%N, VTuple [VInt 1; VBytes [0; 255]%N; VObj (U"lib.pyvals.Pt") [(U"x", VList [VNone])]]);
@@ -156,8 +220,17 @@ Definition ex_r : recording :=
       [(U"m", VTuple [VBool true]); (U"class", VClass (U"lib.pyvals.Pt"))].
 Definition ex_other : recording := Rec (U"Op/ffff") false [(U"k", VInt 7)] [].
 
+Example C07_oracle_premises_met :
+  (forall b, qp_dec_simple (qp_simple b) = b) /\
+  (forall j, jwf j = true -> loads (dumps j) = Some j) /\
+  (forall b, is_bytes b = true -> str_ok (qp_simple b) = true) /\
+  (forall b : bytes, (fun b => Some b) ((fun b => b) b) = Some b).
+Proof.
+  split; [exact qp_simple_roundtrip|]. split; [exact loads_dumps|]. split; [exact qp_simple_ok|]. reflexivity.
+Qed.
+
 Example C07_example :
-  rec_wf ex_r = true /\ assoc META (r_data ex_r) = None /\ r_id ex_other <> r_id ex_r /\
+  rec_wf ex_r = true /\ rec_leaves_ok ex_r = true /\ rec_leaves_ok ex_other = true /\ assoc META (r_data ex_r) = None /\ r_id ex_other <> r_id ex_r /\
   fpath (r_id ex_other) <> fpath (r_id ex_r) /\
   mem_get qp_dec_simple loads (r_id ex_r) (mem_saves qp_simple [ex_other] (fst (mem_save qp_simple ex_r []))) = Ans (fetched_of ex_r) /\
   file_get qp_dec_simple loads (r_id ex_r) (file_saves qp_simple [ex_other] (fst (file_save qp_simple ex_r []))) = Ans (fetched_of ex_r) /\
@@ -166,7 +239,8 @@ Example C07_example :
              (fst (s3_save qp_simple (fun b => b) (Cfg (U"p") false false) ex_r NoCalc (BState [] []))))) = Ans (fetched_of ex_r) /\
   fetched_of ex_r <> fetched_of ex_other.
 Proof.
-  split; [vm_compute; reflexivity|]. split; [vm_compute; reflexivity|].
+  split; [vm_compute; reflexivity|]. split; [vm_compute; reflexivity|]. split; [vm_compute; reflexivity|].
+  split; [vm_compute; reflexivity|].
   split; [vm_compute; discriminate|]. split; [vm_compute; discriminate|].
   split; [vm_compute; reflexivity|]. split; [vm_compute; reflexivity|]. split; [vm_compute; reflexivity|].
   vm_compute; discriminate.
